@@ -184,7 +184,8 @@ Definition ctx_op (o : Op) : bool :=
   match o with
   | OCall _ _ _ _ _ _ _ _ _ _ _ _ _ | OModCall _ _ _ _ _ _ _ _ _ _ _ _ _ _
   | ORespond _ _ _ _ _ _ | OPause _ _ _ | OStart _ _ _ | OKill _ _ _
-  | OUpdateCtx _ _ _ _ _ _ _ _ | OEndBlock _ => true
+  | OUpdateCtx _ _ _ _ _ _ _ _ | OEndBlock _
+  | OModUpdate _ _ _ _ _ _ _ _ | OModPause _ _ | OModStart _ _ | OModKill _ _ => true
   | _ => false
   end.
 
@@ -516,7 +517,7 @@ Lemma h_update_ctx_spec cfg s c who provs cap timeout freq total ok s' :
     /\ ~ (1 <= total < c_counter rc)
     /\ s' = put_ctx s c (upd_ctx rc provs capo timeout freq total).
 Proof.
-  unfold h_update_ctx. intros H. inv_ok H. apply authorized_spec in Ha. destruct Ha as (E & Ew & Em).
+  unfold h_update_ctx, update_ctx_tail. intros H. inv_ok H. apply authorized_spec in Ha. destruct Ha as (E & Ew & Em).
   rename a into rc, a0 into rc1.
   apply negb_true_iff, is_state_false in Hc1.
   unfold valid_update in Hc0.
@@ -563,6 +564,204 @@ Proof.
   unfold upd_ctx. destruct capo, provs; cbn [setc_cap c_timeout c_freq]; destruct (total =? 0);
   repeat match goal with |- context [if ?b then _ else _] => destruct b end; cbn; auto.
 Qed.
+
+(* ------------------------------------------------------------------ *)
+(* the keeper API as driven by the module that owns the context *)
+
+Lemma authorized_mod_spec s c who rc : authorized_mod s c who = Ok rc ->
+  get c (ctxs s) = Some rc /\ c_cons rc = who.
+Proof. unfold authorized_mod. intros H. inv_ok H. subst. b2p. auto. Qed.
+
+Lemma h_mod_pause_spec s c who s' : h_mod_pause s c who = Ok s' ->
+  exists rc, get c (ctxs s) = Some rc /\ c_cons rc = who
+    /\ c_rep rc = true /\ c_state rc = Running /\ s' = put_ctx s c (setc_state rc Paused).
+Proof.
+  unfold h_mod_pause. intros H. inv_ok H. apply authorized_mod_spec in Ha. destruct Ha as (E & Ew).
+  apply is_state_true in Hc0. subst s'. exists a. auto 8.
+Qed.
+
+Lemma h_mod_start_spec s c who s' : h_mod_start s c who = Ok s' ->
+  exists rc, get c (ctxs s) = Some rc /\ c_cons rc = who
+    /\ c_state rc = Paused /\ s' = started s c rc.
+Proof.
+  unfold h_mod_start. intros H. inv_ok H. apply authorized_mod_spec in Ha. destruct Ha as (E & Ew).
+  apply is_state_true in Hc. exists a. repeat split; try assumption.
+  unfold started. sproj.
+  destruct (negb (has c (expq_h s)) && negb (has c (newq_h s))); inv_ok H; now subst.
+Qed.
+
+Lemma h_mod_kill_spec s c who s' : h_mod_kill s c who = Ok s' ->
+  exists rc, get c (ctxs s) = Some rc /\ c_cons rc = who
+    /\ c_rep rc = true /\ s' = put_ctx s c (setc_state rc Completed).
+Proof.
+  unfold h_mod_kill. intros H. inv_ok H. apply authorized_mod_spec in Ha. destruct Ha as (E & Ew).
+  subst s'. exists a. auto 8.
+Qed.
+
+(* the response threshold written by the module's update: positive values replace it *)
+Definition with_thr (rc : Ctx) (t : Z) : Ctx := if 0 <? t then setc_thr rc t else rc.
+
+Lemma with_thr_fixed rc t :
+  let rc' := with_thr rc t in
+  c_svc rc' = c_svc rc /\ c_provs rc' = c_provs rc /\ c_cons rc' = c_cons rc /\ c_input rc' = c_input rc
+  /\ c_cap rc' = c_cap rc /\ c_timeout rc' = c_timeout rc
+  /\ c_super rc' = c_super rc /\ c_rep rc' = c_rep rc /\ c_freq rc' = c_freq rc /\ c_total rc' = c_total rc
+  /\ c_counter rc' = c_counter rc
+  /\ c_breq rc' = c_breq rc /\ c_bresp rc' = c_bresp rc /\ c_bthr rc' = c_bthr rc
+  /\ c_bdone rc' = c_bdone rc /\ c_state rc' = c_state rc /\ c_mod rc' = c_mod rc.
+Proof. unfold with_thr. destruct (0 <? t); cbn; auto 20. Qed.
+
+Lemma with_thr_thr rc t : c_thr (with_thr rc t) = if 0 <? t then t else c_thr rc.
+Proof. unfold with_thr. destruct (0 <? t); reflexivity. Qed.
+
+Lemma update_ctx_tail_spec cfg s c rc provs cap timeout freq total s' :
+  update_ctx_tail cfg s c rc provs cap timeout freq total = Ok s' ->
+  exists capo, (capo = None \/ exists capv, capo = Some capv /\ 0 < capv)
+    /\ timeout <= p_max_timeout cfg
+    /\ (if timeout =? 0 then c_timeout rc else timeout) <= (if freq =? 0 then c_freq rc else freq)
+    /\ ~ (1 <= total < c_counter rc)
+    /\ s' = put_ctx s c (upd_ctx rc provs capo timeout freq total).
+Proof.
+  unfold update_ctx_tail. intros H. inv_ok H. rename a into rc1.
+  assert (Hcap : exists capo, (capo = None \/ exists capv, capo = Some capv /\ 0 < capv)
+             /\ rc1 = match capo with Some capv => setc_cap rc capv | None => rc end).
+  { destruct (coins_empty cap); inv_ok Ha.
+    - exists None. split; [now left|now subst].
+    - exists (Some a). split; [right; exists a; split; [reflexivity|eapply one_base_coin_pos; eauto]|now subst]. }
+  destruct Hcap as (capo & Hcapo & Erc1).
+  assert (Et : c_timeout rc1 = c_timeout rc) by (subst rc1; destruct capo; reflexivity).
+  assert (Ef : c_freq rc1 = c_freq rc) by (subst rc1; destruct capo; reflexivity).
+  assert (En : c_counter rc1 = c_counter rc) by (subst rc1; destruct capo; reflexivity).
+  exists capo. b2p.
+  split; [assumption|]. split; [lia|].
+  split; [rewrite <- Et, <- Ef; lia|].
+  split.
+  { rewrite <- En. intros [Hx Hy].
+    match goal with Hz : (_ && _) = false |- _ => apply andb_false_iff in Hz; destruct Hz; b2p; lia end. }
+  subst s'. unfold upd_ctx. rewrite <- Erc1. reflexivity.
+Qed.
+
+(* without any assumption on the caller: the record written is an update of the stored one,
+   possibly with another threshold *)
+Lemma h_mod_update_gen cfg s c who provs thr cap timeout freq total s' :
+  h_mod_update cfg s c who provs thr cap timeout freq total = Ok s' ->
+  exists rc t capo, get c (ctxs s) = Some rc /\ c_cons rc = who /\ c_state rc <> Completed
+    /\ s' = put_ctx s c (upd_ctx (with_thr rc t) provs capo timeout freq total).
+Proof.
+  unfold h_mod_update. intros H. inv_ok H. apply authorized_mod_spec in Ha. destruct Ha as (E & Ew).
+  rename a into rc, a0 into rc0.
+  apply negb_true_iff, is_state_false in Hc.
+  apply update_ctx_tail_spec in H. destruct H as (capo & _ & _ & _ & _ & ->).
+  assert (Ht : exists t, rc0 = with_thr rc t).
+  { destruct (c_mod rc =? 0).
+    - inv_ok Ha0. exists 0. now subst.
+    - inv_ok Ha0. unfold thr_update in Ha0. inv_ok Ha0. eexists. unfold with_thr. now subst. }
+  destruct Ht as (t & ->). exists rc, t, capo. auto.
+Qed.
+
+(* called by the owning module (wf_op): everything UpdateRequestContext checks and writes *)
+Lemma h_mod_update_spec cfg s c who provs thr cap timeout freq total s' :
+  h_mod_update cfg s c who provs thr cap timeout freq total = Ok s' ->
+  (forall rc, get c (ctxs s) = Some rc -> c_mod rc <> 0) ->
+  exists rc capo, get c (ctxs s) = Some rc /\ c_cons rc = who /\ c_mod rc <> 0
+    /\ c_state rc <> Completed
+    /\ (capo = None \/ exists capv, capo = Some capv /\ 0 < capv)
+    /\ 0 <= timeout <= p_max_timeout cfg /\ -1 <= total
+    /\ (if timeout =? 0 then c_timeout rc else timeout) <= (if freq =? 0 then c_freq rc else freq)
+    /\ ~ (1 <= total < c_counter rc)
+    /\ (if thr =? 0 then c_thr rc else thr)
+        <= len (match provs with [] => c_provs rc | _ => provs end)
+    /\ s' = put_ctx s c (upd_ctx (with_thr rc (if thr =? 0 then c_thr rc else thr))
+                           provs capo timeout freq total).
+Proof.
+  unfold h_mod_update. intros H Hown. inv_ok H. apply authorized_mod_spec in Ha. destruct Ha as (E & Ew).
+  rename a into rc, a0 into rc0.
+  apply negb_true_iff, is_state_false in Hc.
+  specialize (Hown rc E). destruct (c_mod rc =? 0) eqn:Em; [b2p; contradiction|].
+  inv_ok Ha0. unfold thr_update in Ha0. inv_ok Ha0.
+  assert (Erc0 : rc0 = with_thr rc (if thr =? 0 then c_thr rc else thr)) by (unfold with_thr; now subst).
+  clear Ha0. subst rc0.
+  apply update_ctx_tail_spec in H. destruct H as (capo & Hcapo & Hmax & Htf & Htot & ->).
+  destruct (with_thr_fixed rc (if thr =? 0 then c_thr rc else thr))
+    as (_ & _ & _ & _ & _ & Et & _ & _ & Ef & _ & En & _).
+  rewrite Et, Ef, En in *.
+  unfold valid_update in Hc0. exists rc, capo. b2p.
+  split; [assumption|]. split; [assumption|]. split; [assumption|]. split; [assumption|].
+  split; [assumption|]. split; [lia|]. split; [lia|].
+  split; [assumption|]. split; [assumption|]. split; [assumption|reflexivity].
+Qed.
+
+(* the fields an update by the owning module leaves alone, and the terms it writes *)
+Lemma upd_thr_fixed rc t provs capo timeout freq total :
+  let rc' := upd_ctx (with_thr rc t) provs capo timeout freq total in
+  c_svc rc' = c_svc rc /\ c_cons rc' = c_cons rc /\ c_input rc' = c_input rc
+  /\ c_super rc' = c_super rc /\ c_rep rc' = c_rep rc /\ c_counter rc' = c_counter rc
+  /\ c_breq rc' = c_breq rc /\ c_bresp rc' = c_bresp rc /\ c_bthr rc' = c_bthr rc
+  /\ c_bdone rc' = c_bdone rc /\ c_state rc' = c_state rc
+  /\ c_thr rc' = (if 0 <? t then t else c_thr rc)
+  /\ c_mod rc' = c_mod rc.
+Proof.
+  intros rc'. subst rc'.
+  pose proof (upd_ctx_fixed (with_thr rc t) provs capo timeout freq total) as H. cbv zeta in H.
+  destruct H as (H1 & H2 & H3 & H4 & H5 & H6 & H7 & H8 & H9 & H10 & H11 & H12 & H13).
+  destruct (with_thr_fixed rc t) as (F1 & F2 & F3 & F4 & F5 & F6 & F7 & F8 & F9 & F10 & F11 & F12 & F13 & F14 & F15 & F16 & F17).
+  rewrite H1, H2, H3, H4, H5, H6, H7, H8, H9, H10, H11, H12, H13, with_thr_thr.
+  rewrite F1, F3, F4, F7, F8, F11, F12, F13, F14, F15, F16, F17. auto 20.
+Qed.
+
+Lemma upd_thr_terms rc t0 provs capo timeout freq total :
+  let rc' := upd_ctx (with_thr rc t0) provs capo timeout freq total in
+  let t := if timeout =? 0 then c_timeout rc else timeout in
+  let f := if freq =? 0 then c_freq rc else freq in
+  c_timeout rc' = (if 0 <? t then t else c_timeout rc)
+  /\ c_freq rc' = (if 0 <? f then f else c_freq rc)
+  /\ c_total rc' = (if total =? 0 then c_total rc else total)
+  /\ c_cap rc' = (match capo with Some v => v | None => c_cap rc end).
+Proof.
+  intros rc' t f. subst rc' t f.
+  pose proof (upd_ctx_terms (with_thr rc t0) provs capo timeout freq total) as H. cbv zeta in H.
+  destruct (with_thr_fixed rc t0) as (F1 & F2 & F3 & F4 & F5 & F6 & F7 & F8 & F9 & F10 & _).
+  rewrite F5, F6, F9, F10 in H. exact H.
+Qed.
+
+(* the four keeper-API ops; the shape of what any of them writes (for frame proofs) *)
+Definition mod_op (o : Op) : bool :=
+  match o with
+  | OModUpdate _ _ _ _ _ _ _ _ | OModPause _ _ | OModStart _ _ | OModKill _ _ => true
+  | _ => false
+  end.
+
+Lemma mod_op_shape cfg s o s' : mod_op o = true -> handle cfg s o = Ok s' ->
+  exists c rc', s' = put_ctx s c rc' \/ s' = add_newq (put_ctx s c rc') c (height s).
+Proof.
+  intros Hm H. destruct o; try discriminate; cbn [handle] in H.
+  - apply h_mod_update_gen in H. destruct H as (rc & t & capo & _ & _ & _ & ->). eauto.
+  - apply h_mod_pause_spec in H. destruct H as (rc & _ & _ & _ & _ & ->). eauto.
+  - apply h_mod_start_spec in H. destruct H as (rc & _ & _ & _ & ->). unfold started.
+    destruct (negb (has c (expq_h s)) && negb (has c (newq_h s))); eauto.
+  - apply h_mod_kill_spec in H. destruct H as (rc & _ & _ & _ & ->). eauto.
+Qed.
+
+Definition put_shape (s s' : State) : Prop :=
+  exists c rc', s' = put_ctx s c rc' \/ s' = add_newq (put_ctx s c rc') c (height s).
+
+Lemma h_mod_update_shape cfg s c who provs thr cap timeout freq total s' :
+  h_mod_update cfg s c who provs thr cap timeout freq total = Ok s' -> put_shape s s'.
+Proof. apply (mod_op_shape cfg s (OModUpdate c who provs thr cap timeout freq total) s' eq_refl). Qed.
+Lemma h_mod_pause_shape s c who s' : h_mod_pause s c who = Ok s' -> put_shape s s'.
+Proof. apply (mod_op_shape (mkParams 0 0 0 0 0 0 0 0 0) s (OModPause c who) s' eq_refl). Qed.
+Lemma h_mod_start_shape s c who s' : h_mod_start s c who = Ok s' -> put_shape s s'.
+Proof. apply (mod_op_shape (mkParams 0 0 0 0 0 0 0 0 0) s (OModStart c who) s' eq_refl). Qed.
+Lemma h_mod_kill_shape s c who s' : h_mod_kill s c who = Ok s' -> put_shape s s'.
+Proof. apply (mod_op_shape (mkParams 0 0 0 0 0 0 0 0 0) s (OModKill c who) s' eq_refl). Qed.
+
+(* H : h_mod_* ... = Ok s'  (after cbn [handle]); leaves two goals with s' replaced *)
+Ltac mod_shape H :=
+  let c' := fresh "c'" in let rc' := fresh "rc'" in
+  first
+  [ apply h_mod_update_shape in H | apply h_mod_pause_shape in H
+  | apply h_mod_start_shape in H | apply h_mod_kill_shape in H ];
+  destruct H as (c' & rc' & [H | H]); subst.
 
 Lemma respond_spec cfg s r who code out ov ok s' :
   h_respond cfg s r who code out ov ok = Ok s' ->
